@@ -5,7 +5,22 @@ import os
 import subprocess
 
 V = os.path.dirname(os.path.dirname(os.path.abspath(__file__)))
-reg = json.load(open(os.path.join(V, "families", "registry.json")))
+reg = {}
+for fn in sorted(os.listdir(os.path.join(V, "families", "registry.d"))):
+    if fn.endswith(".json"):
+        reg.update(json.load(open(os.path.join(V, "families", "registry.d", fn))))
+# merge findings.d/*.json into known_findings.json (ids are unique; existing entries win)
+kf = json.load(open(os.path.join(V, "known_findings.json")))
+have = {f["id"] for f in kf["findings"]}
+fd = os.path.join(V, "findings.d")
+if os.path.isdir(fd):
+    for fn in sorted(os.listdir(fd)):
+        if fn.endswith(".json"):
+            for f in json.load(open(os.path.join(fd, fn))).get("findings", []):
+                if f["id"] not in have:
+                    kf["findings"].append(f)
+                    have.add(f["id"])
+    json.dump(kf, open(os.path.join(V, "known_findings.json"), "w"), indent=1)
 props = [json.loads(l) for l in open(os.path.join(V, "properties.jsonl"))]
 na = json.load(open(os.path.join(V, "families", "not_applicable.json")))
 hooks = json.load(open(os.path.join(V, "families", "hooks.json")))
